@@ -260,13 +260,19 @@ def run(out, tier):
                 stats["differ_expected"] += 1
                 if eq:
                     cls = classify(a, b, model[i], model[j])
-                    if cls and cls in findings:
+                    # a collision belongs to a known class only if the MODEL's encoding explains it: the concatenated definition
+                    # stream and the concatenated file-content stream are literally equal for the two states (C09: equal keys imply
+                    # equal hashed byte streams).  Equal keys on states whose predicted streams differ are a different defect.
+                    cat = lambda m: ("".join(c for c in m[0].split(",") if c != "-"), m[1])
+                    explained = cat(model[i]) == cat(model[j])
+                    if cls and cls in findings and explained:
                         stats["collisions_known"] += 1
                         out.known(findings[cls]["id"], "class=%s e.g. %s: %s vs %s share key %s" % (
                             cls, kind, json.dumps(a, default=str), json.dumps(b, default=str), ka[0].split("\t")[1]))
                     else:
-                        out.violation("different build states share one key under both algorithms (%s; class %s)" % (kind, cls),
-                                      {"a": a, "b": b, "key": ka, "class": cls})
+                        out.violation("different build states share one key under both algorithms (%s; class %s%s)" % (
+                            kind, cls, "" if explained else "; the byte streams the model predicts differ, so the unframed encoding does not explain it"),
+                                      {"a": a, "b": b, "key": ka, "class": cls, "explained_by_model_encoding": explained})
             if len(samples) < 3 and kind.startswith(("mut", "collision")):
                 samples.append({"kind": kind, "a": a, "b": b, "keys_equal": eq, "states_equivalent": eqv})
         if tie_bad and not out.violations:
